@@ -9,6 +9,8 @@
    chainget <sites> <step> <post> <n> { <post> <site> <step> <D> <mat> }*n
    tebd <sites> <start_step> <nsteps> <D_i>*sites <x0_i>*sites <n> { <post> <site> <step> <mat> }*n
         <haslayers> [ <H_i>*sites ]
+   tebdh <sites> <start_step> <D_i>*sites <x0_i>*sites <n0> { reg }*n0 <haslayers> [ <H_i>*sites ]
+        <nops> { a <post> <site> <step> <mat> | c <end_step> }*nops
 -/
 import OQuPyVerif.Model.Proto
 import OQuPyVerif.Model.Control
@@ -159,6 +161,37 @@ def opTebd : P String := do
   let recs := tebdRun env s0 x0.toArray nsteps
   pure ("|".intercalate (recs.map (fun r => ";".intercalate (r.toList.map showVec))))
 
+def pHistOp (dims : Array Nat) : P (TebdHistOp DMat) := do
+  match (← tok) with
+  | "a" => do
+    let (post, site, stp, op) ← pChainCall (some dims)
+    pure (TebdHistOp.add op site stp post)
+  | "c" => return TebdHistOp.compute (← pInt)
+  | _ => failure
+
+/-- construct (with `n0` controls already registered); then a history of add / compute ops -/
+def opTebdHist : P String := do
+  let sites ← pNat; let s0 ← pInt
+  let dims ← pMany sites pNat
+  let x0 ← dims.mapM pVec
+  let n0 ← pNat
+  let calls ← pMany n0 (pChainCall (some dims.toArray))
+  let hasL ← pBool
+  let hs ← if hasL then dims.mapM pMat else pure []
+  let nops ← pNat
+  let ops ← pMany nops (pHistOp dims.toArray)
+  pEnd
+  let ha := hs.toArray
+  let base : TebdEnv DMat (Array (Array Rat)) (Array (Array Rat)) :=
+    { n := sites
+      ctl := {}
+      actSite := fun i a x => x.modify i (fun v => a • v)
+      layers := fun x => if hasL then x.mapIdx (fun i v => ha.getD i 1 • v) else x
+      pts := fun _ x => x
+      obs := fun _ x => x }
+  let recs := tebdHistory base (buildChain calls) s0 x0.toArray ops
+  pure ("|".intercalate (recs.map (fun r => ";".intercalate (r.toList.map showVec))))
+
 def step (line : String) : String :=
   match words line with
   | [] => "bad-op"
@@ -169,6 +202,7 @@ def step (line : String) : String :=
       | "cd" => some opCd
       | "chainget" => some opChainGet
       | "tebd" => some opTebd
+      | "tebdh" => some opTebdHist
       | _ => none
     match p with
     | none => "bad-op"
